@@ -32,7 +32,8 @@ def _impl(rnd, kind, edges):
         return rnd.choice(['counter', 'fsm'])
     if len(edges) == 1 and edges[0]['filter'] == 'pass' and edges[0]['cond'] == 'none' and rnd.random() < .5:
         return 'repeat'
-    return 'probe'
+    # a stateless forwarder: a plain probe block, or an OutputFunc forwarding through on_success
+    return rnd.choice(['probe', 'probe', 'of'])
 
 
 def _graph(rnd, kinds, edges):
@@ -43,7 +44,7 @@ def _graph(rnd, kinds, edges):
         if impl[b] == 'repeat' and impl[es[0]['to'] - 1] == 'repeat':
             impl[b] = 'probe'
     for b, es in enumerate(edges):
-        if impl[b] in ('fsm', 'probe', 'repeat'):
+        if impl[b] in ('fsm', 'probe', 'repeat', 'of'):
             for e in es:
                 e['trig'] = 'out'           # on_enter / probe events: sent on every handled event
     return {'kind': kinds, 'edges': edges, 'impl': impl}
@@ -122,7 +123,7 @@ def stimuli(tier, seed, ctx):
     return out
 
 
-ETYPE = {'input': 'put', 'counter': 'inc', 'fsm': 'tgl', 'probe': 'fwdev', 'repeat': 'put'}
+ETYPE = {'input': 'put', 'counter': 'inc', 'fsm': 'tgl', 'probe': 'fwdev', 'repeat': 'put', 'of': 'put'}
 
 
 def execute(stim):
@@ -218,6 +219,8 @@ def execute(stim):
                 e = g['edges'][b - 1][0]
                 blk = edzed.Repeat(f'n{b}', dest=f'n{e["to"]}', etype=etype_of(e['to']),
                                    interval='1h', count=0)
+            elif impl == 'of':
+                blk = edzed.OutputFunc(f'n{b}', func=lambda value: value, on_success=mk_events(b), on_error=None)
             else:
                 blk = Probe(f'n{b}')
                 blk.out_events = mk_events(b)
